@@ -51,8 +51,8 @@ def catalogue():
         ("Not", lambda: Not, 1, 1, True, False),
         ("DivMod", lambda: DivMod, 2, 2, True, False),
         ("DFG", dfg, 1, 2, True, True),
-        ("Input", lambda: ops.Input([B, Q]), 0, 2, True, False),
-        ("Output", lambda: ops.Output([B, Q]), 2, 0, True, False),
+        ("Input", lambda: ops.Input([B, Q]), 0, 2, "out", False),
+        ("Output", lambda: ops.Output([B, Q]), 2, 0, "in", False),
         ("Const", lambda: ops.Const(val.TRUE), 0, 1, False, False),
         ("LoadConst", lambda: ops.LoadConst(B), 1, 1, True, False),
         ("FuncDefn", fdefn, 0, 1, False, True),
@@ -85,6 +85,10 @@ META_POOL = [
 ]
 
 
+def has_order(spec, direction) -> bool:
+    return spec[4] is True or spec[4] == direction
+
+
 class G:
     """One real Hugr with its reference model and bookkeeping."""
 
@@ -99,20 +103,55 @@ class G:
         self.reused = False
 
 
+def adopt(name, hugr) -> G:
+    """Wrap an existing HUGR (e.g. an engine-B product) so that engine-A clients can mutate it."""
+    import json
+
+    from ..oracles import refsem as R
+
+    g = G.__new__(G)
+    g.name = name
+    g.h = hugr
+    doc = json.loads(hugr.to_json())
+    live = [n for n in hugr]
+    g.m = RefGraph(hugr[hugr.root].op)
+    g.m.nodes = {}
+    g.handles, g.spec, g.req_outs = {}, {}, {}
+    from ..oracles.refgraph import RNode
+    for rank, n in enumerate(live):
+        d = hugr[n]
+        rn = RNode(d.op, d.parent.idx if d.parent is not None else None, d.metadata, None)
+        rn.children = [c.idx for c in hugr.children(n)]
+        g.m.nodes[n.idx] = rn
+        g.handles[n.idx] = n
+        sem = R.op_sem(doc["nodes"][rank])
+        oi, oo = sem["oin"][0] == "order", sem["oout"][0] == "order"
+        has_order = True if (oi and oo) else ("in" if oi else ("out" if oo else False))
+        g.spec[n.idx] = (doc["nodes"][rank]["op"], None, R.n_in(sem) - (1 if sem["oin"][0] == "order" else 0),
+                         R.n_out(sem) - (1 if sem["oout"][0] == "order" else 0), has_order, sem["flags"]["children"] != "None")
+    g.m.root = hugr.root.idx
+    g.m.links = [(a.node.idx, a.offset, b.node.idx, b.offset) for a, b in hugr.links()]
+    g.ever_deleted = False
+    g.reused = False
+    return g
+
+
 class GraphSim:
     def __init__(self, ctx, in_range: bool = False, allow_delete: bool = True, allow_insert: bool = True,
-                 use_meta: bool = True, max_nodes: int = 25, n_aux: int | None = None):
+                 use_meta: bool = True, max_nodes: int = 25, n_aux: int | None = None, adopt_hugr=None,
+                 order_only_valid: bool = False):
         from hugr.hugr import Hugr  # noqa: F401
 
         self.ctx = ctx
         ch = ctx.ch
         self.in_range = in_range
+        self.order_only_valid = order_only_valid
         self.allow_delete = allow_delete
         self.allow_insert = allow_insert
         self.use_meta = use_meta
         self.max_nodes = max_nodes
         self.cat = catalogue()
-        self.graphs: list[G] = [self._new_graph("A", ch)]
+        self.graphs: list[G] = [adopt("A", adopt_hugr) if adopt_hugr is not None else self._new_graph("A", ch)]
         n_aux = ch.draw(3, "n-aux") if n_aux is None else n_aux
         if not allow_insert:
             n_aux = 0
@@ -163,11 +202,11 @@ class GraphSim:
         spec = g.spec[idx]
         n = spec[2] if direction == "in" else spec[3]
         if self.in_range:
-            opts = list(range(n)) + ([-1] if spec[4] else [])
+            opts = list(range(n)) + ([-1] if has_order(spec, direction) else [])
             if not opts:
                 return None
             return ch.pick(opts, tag)
-        if ch.coin(1, 6, tag + "-order"):
+        if (has_order(spec, direction) or not self.order_only_valid) and ch.coin(1, 6, tag + "-order"):
             return -1
         return ch.draw(4, tag)
 
@@ -262,8 +301,8 @@ class GraphSim:
             return ("noop",)
         if self.in_range and (so == -1) != (do == -1):
             # an order port links to an order port only
-            so = do = -1 if (g.spec[s][4] and g.spec[d][4]) else (0 if so == -1 else so)
-            if do == -1 and not g.spec[d][4]:
+            so = do = -1 if (has_order(g.spec[s], "out") and has_order(g.spec[d], "in")) else (0 if so == -1 else so)
+            if do == -1 and not has_order(g.spec[d], "in"):
                 do = 0
             if (so == -1) != (do == -1):
                 self.ctx.ev(actor, "noop", {"g": g.name})
@@ -282,9 +321,9 @@ class GraphSim:
         return ("add_link", (s, so, d, do))
 
     def do_add_order(self, actor, g):
-        pred = (lambda i: g.spec[i][4]) if self.in_range else None
-        s = self._pick_node(g, actor, "osrc", pred)
-        d = self._pick_node(g, actor, "odst", pred)
+        strict = self.in_range or self.order_only_valid
+        s = self._pick_node(g, actor, "osrc", (lambda i: has_order(g.spec[i], "out")) if strict else None)
+        d = self._pick_node(g, actor, "odst", (lambda i: has_order(g.spec[i], "in")) if strict else None)
         if s is None or d is None:
             self.ctx.ev(actor, "noop", {"g": g.name})
             return ("noop",)
